@@ -435,7 +435,7 @@ def check_fixture(name, ctx):
 
 def plan(tier, seed):
     nd = 48 if tier == 'quick' else 480
-    seeds = (0, 1, 2, 3) if tier == 'quick' else tuple(range(16))
+    seeds = (0, 1, 2, 3) if tier == 'quick' else tuple(range(8))
     per = 12 if tier == 'quick' else 40
     specs = []
     for h in seeds:
